@@ -96,7 +96,9 @@ func (source *SR) NewTransform(dest *SR) (Transformer, error) {
 
 		// Adjust for the prime meridian if necessary
 		if !math.IsNaN(dest.FromGreenwich) {
-			point[0] -= dest.FromGreenwich
+			// Counting from another prime meridian can take the longitude
+			// out of [-pi, pi], which some projections reject.
+			point[0] = adjust_lon(point[0] - dest.FromGreenwich)
 		}
 
 		if dest.Name == longlat {
